@@ -343,6 +343,8 @@ def gen_config(rng, desc):
         desc["target"] = rng.choice([0, 2, 1024])     # a chip always reports an integer
     if desc["pipeline"] == "wrapper":
         desc["methods"], desc["target"] = ["dr"], None  # what the deprecated wrapper does
+    if desc["pipeline"] == "pnr" and desc["placer_seed"] % 3 == 0:
+        desc["custom_resources"] = True                 # (every third: the caller names the resources)
 
 
 def public(desc):
@@ -486,9 +488,21 @@ def run_pipeline(env, desc, prepared=None):
                                             place=place, place_kwargs=pkw, route_kwargs={"radius": desc["radius"]})
         else:
             si = env.system_info(desc)
-            pl, al, _, tables = env.place_and_route_wrapper(
-                vr, {v: "app" for v in vs}, nets, net_keys, si, cons, place=place, place_kwargs=pkw,
-                route_kwargs={"radius": desc["radius"]}, minimise_tables_methods=methods)
+            if desc.get("custom_resources"):
+                # resources of the caller's own naming (the wrapper's core_resource / sdram_resource / sram_resource arguments):
+                # the same problem with every resource renamed; the allocations are renamed back for the judge
+                ren = {env.Cores: "my-cores", env.SDRAM: ("my", "sdram")}
+                back = dict((v_, k_) for k_, v_ in ren.items())
+                vr2 = dict((v, dict((ren.get(r, r), n) for r, n in res.items())) for v, res in vr.items())
+                pl, al2, _, tables = env.place_and_route_wrapper(
+                    vr2, {v: "app" for v in vs}, nets, net_keys, si, cons, place=place, place_kwargs=pkw,
+                    route_kwargs={"radius": desc["radius"]}, minimise_tables_methods=methods,
+                    core_resource="my-cores", sdram_resource=("my", "sdram"), sram_resource="my-sram")
+                al = dict((v, dict((back.get(r, r), sl) for r, sl in a.items())) for v, a in al2.items())
+            else:
+                pl, al, _, tables = env.place_and_route_wrapper(
+                    vr, {v: "app" for v in vs}, nets, net_keys, si, cons, place=place, place_kwargs=pkw,
+                    route_kwargs={"radius": desc["radius"]}, minimise_tables_methods=methods)
     except env.not_mapped as e:
         out.status = "not_mapped:" + type(e).__name__
         return out
